@@ -14,6 +14,7 @@ type RegexGen struct {
 	Mixed    bool // named and numbered groups in one regex: only NAMED back-references are generated then
 	                // (vore numbers the unnamed groups only, a conventional engine numbers all of them)
 	BackRefs bool
+	ManyGroups bool // open with 9..12 small numbered groups, so that back-references get two digits
 	Anchors  bool
 	nGroup   int
 	nNamed   int
@@ -224,9 +225,56 @@ func (g *RegexGen) content(depth int) rxPiece {
 // Regex generates one regex literal.
 func (g *RegexGen) Regex(depth int) Regex {
 	g.budget = 5
+	var pre rxPiece
+	if g.ManyGroups {
+		// (a)(b)?([ab])... : every group one atom, some optional; then a tail that refers back to them
+		n := 9 + g.R.Intn(4)
+		seq := Seq{}
+		var sb strings.Builder
+		for k := 0; k < n; k++ {
+			g.nGroup++
+			name := fmt.Sprintf("_%d", g.nGroup)
+			g.Names = append(g.Names, name)
+			g.NGroups++
+			c := g.ch()
+			var inner Node = Lit{S: string([]byte{c})}
+			isrc := string([]byte{c})
+			if g.R.Chance(1, 4) {
+				b := g.bracket()
+				inner, isrc = b.node, b.src
+			}
+			var node Node = Seq{Items: []Node{Capture{Name: name, Body: Seq{Items: []Node{inner}}}}}
+			gsrc := "(" + isrc + ")"
+			g.closed = append(g.closed, name)
+			if g.groupNullable == nil {
+				g.groupNullable = map[string]bool{}
+			}
+			g.groupNullable[name] = false
+			if g.R.Chance(1, 5) {
+				node = Loop{Min: 0, Max: 1, Body: node}
+				gsrc += "?"
+			}
+			seq.Items = append(seq.Items, node)
+			sb.WriteString(gsrc)
+		}
+		// at least one two-digit reference, when there is a group to take it
+		if g.BackRefs && n >= 10 {
+			k := 10 + g.R.Intn(n-9)
+			name := fmt.Sprintf("_%d", k)
+			seq.Items = append(seq.Items, BackRef{Name: name})
+			sb.WriteString(fmt.Sprintf("\\%d", k))
+			g.HasBackRef = true
+		}
+		pre = rxPiece{sb.String(), seq, false}
+		g.budget = 2
+	}
 	body := g.content(depth)
 	src := body.src
 	tree := body.node
+	if g.ManyGroups {
+		src = pre.src + "(?:" + body.src + ")"
+		tree = Seq{Items: append(pre.node.(Seq).Items, Seq{Items: []Node{body.node}})}
+	}
 	if g.Anchors {
 		// ^ and $ only at the ends of a sequence (never quantified, never alternation operands)
 		if _, isSeq := tree.(Seq); isSeq {
